@@ -489,10 +489,17 @@ def check_r09d(repo, rep, uni):
     """No attribute store on nodes, definitions, smart types, engine outside
     construction-time code."""
     n = 0
+    # classes every instance of which is made inside one evaluation-time
+    # call (a resolution object, a sort key ...): their state is per call
+    from sa.rules import c18
+    local, _shared = c18.split_stateful(repo, uni,
+                                        c18.stateful_classes(repo, uni))
     for fi, role in uni.evaluation_time():
         if fi.module.name not in R09D_MODULES:
             continue
         if role in ('init',):
+            continue
+        if fi.cls is not None and fi.cls.key in local:
             continue
         env = uni.env(fi)
         for w in effects.writes_in(fi.node):
@@ -597,7 +604,9 @@ def run(repo, rep):
     from sa.rules import c04
     rep.rule('R04a', 'see C04: every payload call runs in '
              'context.create_child_context() created per invocation')
-    c04.check_r04a(repo, rep)
+    from sa import resmodel
+    resmodel.install(repo, rep)
+    resmodel.guarded_specs(repo, rep, 'R04a', c04.check_r04a, repo, rep)
     eff = positive_control(repo, rep, uni)
     scope = r09a_scope(uni)
     nsites = check_r09a(repo, rep, uni, eff, scope)
